@@ -45,11 +45,11 @@ func init() {
 		},
 		Components: map[string]string{
 			"encryptcookie middleware, EncryptCookie/DecryptCookie, crypto/aes, crypto/cipher, crypto/rand": "real",
-			"fiber cookie API, fasthttp cookie and header codecs":                                     "real",
-			"browser":                                         "stub harness.Browser (net/http response parser, RFC 6265 store), alterations applied to its store",
-			"fasthttp accept loop / worker pool":              "stub (harness.Conn)",
-			"application without the middleware (control)":    "real app, same handlers",
-			"application before the key change (old key)":     "real second app with another key",
+			"fiber cookie API, fasthttp cookie and header codecs":                                           "real",
+			"browser":                            "stub harness.Browser (net/http response parser, RFC 6265 store), alterations applied to its store",
+			"fasthttp accept loop / worker pool": "stub (harness.Conn)",
+			"application without the middleware (control)": "real app, same handlers",
+			"application before the key change (old key)":  "real second app with another key",
 		},
 	})
 }
